@@ -9,6 +9,8 @@ package main
 import (
 	"encoding/hex"
 	"fmt"
+	"runtime"
+	"runtime/debug"
 	"sort"
 	"strings"
 	"time"
@@ -17,6 +19,7 @@ import (
 	"github.com/enfein/mieru/v3/pkg/appctl/appctlpb"
 	"github.com/enfein/mieru/v3/pkg/metrics"
 	"github.com/enfein/mieru/v3/pkg/protocol"
+	"github.com/enfein/mieru/v3/pkg/protocol/serveruser"
 	"google.golang.org/protobuf/proto"
 	"verifharness/vh"
 )
@@ -697,6 +700,239 @@ func (d *drv) quotaScenario(g *vh.Rng) {
 	}
 }
 
+// registryScenario: a history of SetUsers calls on a real serveruser.Registry (the object behind
+// Mux.SetServerUsers): reloads that change only quotas, nothing, identities, or both. After every reload the
+// policy snapshot that discovery would hand to a new session of each user is compared with the model's
+// generation and, independently, with the configuration just loaded; the decision checkQuota takes with that
+// snapshot must be the one of the quotas now in force.
+func (d *drv) registryScenario(g *vh.Rng) {
+	r := d.r
+	d.hid++
+	d.step = 0
+	r.Case("KC", "-")
+	r.Case("GN", "-")
+	reg := &serveruser.Registry{}
+	type ru struct {
+		u    *quser
+		pass int
+		in   bool
+	}
+	nu := g.Range(2, 4)
+	us := make([]*ru, nu)
+	dayChoices := []int32{1, 1, 2, 7, 30}
+	mbChoices := []int32{1, 1, 2, 5, 64, 1000}
+	randQuotas := func() [][2]int32 {
+		var q [][2]int32
+		for j := []int{0, 1, 1, 2, 3}[g.Intn(5)]; j > 0; j-- {
+			q = append(q, [2]int32{dayChoices[g.Intn(len(dayChoices))], mbChoices[g.Intn(len(mbChoices))]})
+		}
+		return q
+	}
+	for i := range us {
+		u := &quser{name: fmt.Sprintf("c19r-%d-%d-%d", r.Seed, d.hid, i), quotas: randQuotas()}
+		register(u, true, true)
+		d.fill(g, u, 1, int64(mbChoices[g.Intn(len(mbChoices))])*mib+[]int64{-1, 0, mib - 1, mib, 3 * mib}[g.Intn(5)], 0, false)
+		d.publish(u)
+		us[i] = &ru{u: u, pass: i, in: true}
+	}
+	steps := g.Range(3, 8)
+	shape := ""
+	for d.step = 0; d.step < steps; d.step++ {
+		kind := "first"
+		if d.step > 0 {
+			switch g.Intn(8) {
+			case 0:
+				kind = "identical"
+			case 1:
+				kind = "identity" // a user leaves or comes back, or a password changes; quotas change too
+				x := us[g.Intn(nu)]
+				if g.Bool() {
+					x.in = !x.in
+				} else {
+					x.pass += 100
+				}
+				us[g.Intn(nu)].u.quotas = randQuotas()
+			default:
+				kind = "quota-only"
+				x := us[g.Intn(nu)]
+				old := fmt.Sprint(x.u.quotas)
+				for fmt.Sprint(x.u.quotas) == old {
+					x.u.quotas = randQuotas()
+				}
+			}
+		}
+		shape += kind[:1]
+		cfg := map[string]*appctlpb.User{}
+		var sb strings.Builder
+		n := 0
+		for _, x := range us {
+			if !x.in {
+				continue
+			}
+			n++
+			pu := &appctlpb.User{Name: proto.String(x.u.name), Password: proto.String(fmt.Sprintf("pw%d", x.pass))}
+			fmt.Fprintf(&sb, " %s %d %d", hexName(x.u.name), x.pass, len(x.u.quotas))
+			for _, q := range x.u.quotas {
+				pu.Quotas = append(pu.Quotas, &appctlpb.Quota{Days: proto.Int32(q[0]), Megabytes: proto.Int32(q[1])})
+				fmt.Fprintf(&sb, " %d %d", q[0], q[1])
+			}
+			cfg[x.u.name] = pu
+		}
+		reg.SetUsers(cfg)
+		r.Case(fmt.Sprintf("GR %d%s", n, sb.String()), "-")
+		r.Count("reload-" + kind)
+		for _, x := range us {
+			pol, ok := serveruser.VerifPolicyInForce(reg, x.u.name)
+			line, want := "none", "none"
+			var inForce [][2]int32
+			if ok {
+				line = fmt.Sprint(len(pol.Quotas()))
+				for _, q := range pol.Quotas() {
+					line += fmt.Sprintf(" %d %d", q.Days(), q.Megabytes())
+					inForce = append(inForce, [2]int32{q.Days(), q.Megabytes()})
+				}
+			}
+			if x.in {
+				want = fmt.Sprint(len(x.u.quotas))
+				for _, q := range x.u.quotas {
+					want += fmt.Sprintf(" %d %d", q[0], q[1])
+				}
+			}
+			r.Case("GP "+hexName(x.u.name), line)
+			c := map[string]interface{}{"user": x.u.name, "reload": kind, "in_force": line, "configured": want}
+			if line != want {
+				sig := "reload-not-in-force"
+				if kind == "quota-only" {
+					sig = "reload-quota-only-dropped"
+				}
+				d.fail(sig, fmt.Sprintf("after a %s reload the policy handed to new sessions of %s is [%s], the configuration says [%s]", kind, x.u.name, line, want), c)
+			}
+			if !ok {
+				continue
+			}
+			// the decision with the snapshot in force, judged against the configured quotas
+			now := nowNs()
+			snap := &quser{name: x.u.name, quotas: inForce, up: x.u.up, down: x.u.down}
+			res := d.ask(snap, true, x.u.name)
+			exp := expectRefused(x.u, now)
+			if (exp == 1) != (res == "R") {
+				d.fail("reload-decision-by-stale-quota", fmt.Sprintf("after a %s reload user %s has quotas %v configured; checkQuota with the snapshot in force says %s", kind, x.u.name, x.u.quotas, res), c)
+			}
+		}
+	}
+	r.Distinct("registry/" + shape)
+}
+
+// readScenario: the real Session.Read of a bare server session over a receive queue of given payloads, cut into
+// reads by a list of buffer sizes; compared call by call with the model (returned bytes, counted total) and
+// judged directly: after every call UploadBytes = bytes returned so far, the returned bytes are the front of
+// the stream, and another partition of the same stream ends with the same total.
+func (d *drv) readScenario(g *vh.Rng, corpus int) {
+	r := d.r
+	d.hid++
+	d.step = 0
+	segSizes := []int{0, 1, 2, 3, 4, 7, 8, 10, 16, 33, 64, 100, 333, 1000}
+	bufSizes := []int{0, 1, 1, 2, 2, 3, 4, 5, 7, 8, 16, 50, 100, 333, 500, 999, 1000, 1001, 4096}
+	var payloads [][]byte
+	var wants []int
+	total := 0
+	switch corpus {
+	case 1: // one segment read in two halves (the leftover exactly fills the second buffer)
+		payloads, wants, total = [][]byte{g.Bytes(1000)}, []int{500, 500, 1}, 1000
+	case 2: // byte by byte
+		payloads, total = [][]byte{g.Bytes(5), g.Bytes(3)}, 8
+		wants = []int{1, 1, 1, 1, 1, 1, 1, 1, 1}
+	case 3: // thirds, leftover larger than the buffer
+		payloads, wants, total = [][]byte{g.Bytes(1000), g.Bytes(1000)}, []int{333, 333, 333, 333, 333, 333, 333}, 2000
+	default:
+		for i := g.Range(1, 8); i > 0; i-- {
+			n := segSizes[g.Intn(len(segSizes))]
+			payloads = append(payloads, g.Bytes(n))
+			total += n
+		}
+		style := g.Intn(3)
+		fixed := bufSizes[1+g.Intn(len(bufSizes)-1)]
+		for rem, extra := total, 2; rem > 0 || extra > 0; {
+			w := fixed
+			if style != 0 {
+				w = bufSizes[g.Intn(len(bufSizes))]
+			}
+			wants = append(wants, w)
+			if rem > 0 {
+				if w > rem {
+					w = rem
+				}
+				rem -= w // upper bound of what this read can take
+				if w == 0 && len(wants) > 400 {
+					break
+				}
+			} else {
+				extra--
+			}
+			if len(wants) > 600 {
+				break
+			}
+		}
+	}
+	cnt := metrics.VerifNewTimeSeriesCounter("UploadBytes")
+	out, counted := protocol.VerifC19ReadStream(cnt, payloads, wants)
+	var cs, is strings.Builder
+	fmt.Fprintf(&cs, "RS %d", len(payloads))
+	var stream []byte
+	for _, p := range payloads {
+		cs.WriteString(" " + vh.Hex(p))
+		stream = append(stream, p...)
+	}
+	fmt.Fprintf(&cs, " %d", len(wants))
+	var got []byte
+	small := false
+	for i, w := range wants {
+		fmt.Fprintf(&cs, " %d", w)
+		if i > 0 {
+			is.WriteByte(' ')
+		}
+		fmt.Fprintf(&is, "%s:%d", vh.Hex(out[i]), counted[i])
+		got = append(got, out[i]...)
+		if len(out[i]) > 0 && i > 0 && len(out[i-1]) > 0 {
+			small = true
+		}
+		if counted[i] != int64(len(got)) {
+			d.step = i
+			d.fail("read-returned-bytes-not-counted", fmt.Sprintf("Read #%d with a %d byte buffer returned %d bytes; the application has %d bytes of the session, UploadBytes says %d",
+				i, w, len(out[i]), len(got), counted[i]), map[string]interface{}{"segment_sizes": sizes(payloads), "read_buffers": wants})
+		}
+	}
+	if string(got) != string(stream[:len(got)]) {
+		d.fail("read-bytes-not-stream-prefix", "the bytes returned by Read are not the front of the queued stream", map[string]interface{}{"segment_sizes": sizes(payloads), "read_buffers": wants})
+	}
+	r.Case(cs.String(), is.String())
+	r.Count("read-stream")
+	// the same stream taken by one large read per segment: same total
+	if len(got) == total && total > 0 {
+		cnt2 := metrics.VerifNewTimeSeriesCounter("UploadBytes")
+		w2 := make([]int, len(payloads)+1)
+		for i := range w2 {
+			w2[i] = 32768
+		}
+		_, c2 := protocol.VerifC19ReadStream(cnt2, payloads, w2)
+		if c2[len(c2)-1] != counted[len(counted)-1] || c2[len(c2)-1] != int64(total) {
+			d.fail("count-depends-on-read-partition", fmt.Sprintf("stream of %d bytes: %d counted when read with buffers %v, %d when read with 32 KiB buffers", total, counted[len(counted)-1], wants, c2[len(c2)-1]),
+				map[string]interface{}{"segment_sizes": sizes(payloads), "read_buffers": wants})
+		}
+	}
+	if small {
+		r.Distinct(fmt.Sprintf("read/segs=%d/reads=%d/total=%d", len(payloads), len(wants), total))
+	}
+}
+
+func sizes(p [][]byte) []int {
+	l := make([]int, len(p))
+	for i := range p {
+		l[i] = len(p[i])
+	}
+	return l
+}
+
 func indexOf(us []*quser, u *quser) int {
 	for i, x := range us {
 		if x == u {
@@ -800,8 +1036,17 @@ func (d *drv) quotaGrid() {
 func main() {
 	r := vh.Start("c19")
 	defer r.Finish()
-	r.Rep.Rule = "counter: generated operation histories of one metrics.Counter under virtual time (increments in bursts inside one instant / one millisecond, gaps of seconds to three weeks, history start 0 s .. 60 d before the clock, real Add at the clock, roll-up forced at arbitrary operation counts incl. uint64 wrap, natural roll-up at multiples of the interval, Load, window queries on and around entry timestamps, dump/load into fresh and used counters; 'wild' histories add decreasing/future timestamps, forged labels and single passes with arbitrary parameters). quota: boundary grid days x megabytes x byte offset around the allowance x upload/download split, records around the validator's bound on days (106750 .. 2^31-1, 0, -1; megabytes 1, 5, 0, -3) validated by the real ValidateServerConfigSingleUser, then random mixes of 2..5 users with 0..3 quotas, missing metric groups, traffic outside the window and on its edge, other users' counters changed between two decisions. Non-trivial/distinct = counter histories with at least one roll-up keyed by (span, start operation count mod interval, number of roll-ups, labels present at the end); quota cases keyed by (number of quotas, offset from allowance, registration, traffic outside window)"
+	r.Rep.Rule = "counter: generated operation histories of one metrics.Counter under virtual time (increments in bursts inside one instant / one millisecond, gaps of seconds to three weeks, history start 0 s .. 60 d before the clock, real Add at the clock, roll-up forced at arbitrary operation counts incl. uint64 wrap, natural roll-up at multiples of the interval, Load, window queries on and around entry timestamps, dump/load into fresh and used counters; 'wild' histories add decreasing/future timestamps, forged labels and single passes with arbitrary parameters). quota: boundary grid days x megabytes x byte offset around the allowance x upload/download split, records around the validator's bound on days (106750 .. 2^31-1, 0, -1; megabytes 1, 5, 0, -3) validated by the real ValidateServerConfigSingleUser, then random mixes of 2..5 users with 0..3 quotas, missing metric groups, traffic outside the window and on its edge, other users' counters changed between two decisions. read: the real Session.Read of a bare server session over 1..8 queued payloads of 0..1000 bytes cut by buffer sizes 0..4096 (fixed or mixed), each call compared with the model (bytes returned, counted total) and a second partition of the same stream. registry: histories of 3..8 SetUsers calls on a real serveruser.Registry for 2..4 users with counted traffic (quota-only changes, identical reloads, users leaving/returning or changing password together with quota changes), after each reload the policy snapshot in force for every user and the checkQuota decision taken with it. Non-trivial/distinct = counter histories with at least one roll-up keyed by (span, start operation count mod interval, number of roll-ups, labels present at the end); quota cases keyed by (number of quotas, offset from allowance, registration, traffic outside window)"
 	d := &drv{r: r, failed: map[string]bool{}}
+	// The Go 1.23 faketime runtime can spin forever inside a garbage collection that starts while virtual timers
+	// are pending (seen here: 3 hangs in 6 runs once Session.Read's deadline timers were added; same mitigation
+	// as harness/rig). Collect only between scenarios.
+	debug.SetGCPercent(-1)
+	gc := func(i int) {
+		if i%25 == 0 {
+			runtime.GC()
+		}
+	}
 
 	// corpus: the shapes of DESIGN A.6 first (fixed seeds, independent of -seed)
 	cg := vh.NewRng(19)
@@ -821,8 +1066,21 @@ func main() {
 			n = 3200 // natural roll-ups only come with long histories
 		}
 		d.counterHistory(g, n, i%4 == 3)
+		gc(i)
 	}
 	for i := 0; i < nq; i++ {
 		d.quotaScenario(r.Rng.Fork())
+		gc(i)
+	}
+	for i := 0; i < nq; i++ {
+		d.registryScenario(r.Rng.Fork())
+		gc(i)
+	}
+	for i := 1; i <= 3; i++ {
+		d.readScenario(vh.NewRng(uint64(190+i)), i)
+	}
+	for i := 0; i < 6*nq; i++ {
+		d.readScenario(r.Rng.Fork(), 0)
+		gc(i)
 	}
 }
